@@ -559,7 +559,16 @@ func probeAccepted(q string) (why string) {
 	}()
 	model, err := frontend.ParseCypher(frontend.DefaultCypherContext(), q)
 	if err != nil || model == nil {
-		return ""
+		// a default context that has already parsed a harmless query must reject it as well
+		reused := frontend.DefaultCypherContext()
+		func() {
+			defer func() { recover() }()
+			frontend.ParseCypher(reused, "match (n) return n")
+		}()
+		model, err = frontend.ParseCypher(reused, q)
+		if err != nil || model == nil {
+			return ""
+		}
 	}
 	found := ""
 	walk.Cypher(model, walk.NewSimpleVisitor[cypher.SyntaxNode](func(node cypher.SyntaxNode, _ walk.VisitorHandler) {
